@@ -3,10 +3,28 @@ package value
 import (
 	"context"
 	"encoding/json"
+	stdErrors "errors"
 	"fmt"
+	"math"
+	"strconv"
 
 	"github.com/smarthome-go/homescript/v3/homescript/errors"
 )
+
+// A float is written with a fraction (`1.0`, not `1`), like the VM's JSON output.
+type jsonFloat float64
+
+func (f jsonFloat) MarshalJSON() ([]byte, error) {
+	n := float64(f)
+	if math.IsInf(n, 0) || math.IsNaN(n) {
+		return nil, stdErrors.New("unsupported float64")
+	}
+	prec := -1
+	if math.Trunc(n) == n {
+		prec = 1 // Force ".0" for integers.
+	}
+	return strconv.AppendFloat(nil, n, 'f', prec, 64), nil
+}
 
 func marshalValue(self Value, span errors.Span, isInner bool, executor Executor) (interface{}, bool, *Interrupt) {
 	switch self := self.(type) {
@@ -15,7 +33,7 @@ func marshalValue(self Value, span errors.Span, isInner bool, executor Executor)
 	case ValueInt:
 		return self.Inner, false, nil
 	case ValueFloat:
-		return self.Inner, false, nil
+		return jsonFloat(self.Inner), false, nil
 	case ValueBool:
 		return self.Inner, false, nil
 	case ValueAnyObject:
